@@ -313,7 +313,12 @@ static void pages_case(void) {
     carquet_page_writer_destroy(w);
 }
 
+extern void carquet_gzip_init_tables(void);
+extern void carquet_zstd_init_tables(void);
+
 int main(void) {
+    carquet_gzip_init_tables();      /* public no-op entry points of gzip.c / zstd.c */
+    carquet_zstd_init_tables();
     while (h_readline()) {
         h_split();
         if (h_ntok == 0) { puts("ERR empty"); continue; }
